@@ -110,7 +110,15 @@ def coinbase_hash_ref(full_tx):
     return hashlib.sha256(hashlib.sha256(full_tx).digest()).digest()[::-1]
 
 
-def mk_block(rng, nfields=19, sizes=None, cb_full=None, cb_k=1, parent=None):
+def coinbase_from_midstate(counter, state, tail):
+    """(field bytes, reference hash) of a compressed coinbase transaction given directly as byte
+    counter, compression state and tail (for counters no real transaction could be built for)"""
+    field = struct.pack(">Q", counter) + struct.pack(">8I", *state) + tail
+    h = hashlib.sha256(S.finish_from_midstate(state, counter, tail)).digest()[::-1]
+    return field, h
+
+
+def mk_block(rng, nfields=19, sizes=None, cb_full=None, cb_k=1, parent=None, cb_raw=None):
     """Returns (raw_bytes, info). Fields are byte strings; layout per rskj header:
     [0 parent,1 unclesHash,2 coinbase,3 stateRoot,4 txRoot,5 receiptRoot,6 bloom,7 diff,8 num,
      9 gasLimit,10 gasUsed,11 ts,12 extra,13 paidFees,14 minGas,15 uncleCount,(16 ummRoot),
@@ -131,10 +139,14 @@ def mk_block(rng, nfields=19, sizes=None, cb_full=None, cb_k=1, parent=None):
     else:
         fields.append(rng.nz_bytes(80 if not sizes or "btc" not in sizes else sizes["btc"]))
         fields.append(rng.nz_bytes(64 if not sizes or "mp" not in sizes else sizes["mp"]))
-        full = cb_full if cb_full is not None else rng.bytes(64 * cb_k + 37)
-        fields.append(coinbase_field(full, cb_k))
-        info["cb_full"] = full
-        info["cb_hash"] = coinbase_hash_ref(full)
+        if cb_raw is not None:
+            fields.append(cb_raw[0])
+            info["cb_hash"] = cb_raw[1]
+        else:
+            full = cb_full if cb_full is not None else rng.bytes(64 * cb_k + 37)
+            fields.append(coinbase_field(full, cb_k))
+            info["cb_full"] = full
+            info["cb_hash"] = coinbase_hash_ref(full)
     raw = R.encode(fields)
     info["fields"] = fields
     # reference metadata
